@@ -104,7 +104,45 @@ _STAT = re.compile(r"^(\d+) states generated, (\d+) distinct states found, (\d+)
 _TUP = re.compile(r'^<<"([A-Za-z0-9_]+)", "(.*)">>$')
 
 
-def tlc(ctx, module, cfg, *, workers=1, env=None, timeout=900, on=None, heap="6g",
+class jvm_slot:
+    """A machine-wide cap on the number of model-checker JVMs that run at the same time (several checks started side by
+    side would otherwise be killed by the kernel for lack of memory - seen as exit 137 / -9). One slot per ~9 GB of RAM, at
+    least 3; slots are lock files in the system's temporary directory (created on demand, nothing depends on their content)."""
+    N = None
+
+    def __enter__(self):
+        import fcntl
+        import random as _r
+        if jvm_slot.N is None:
+            try:
+                gb = os.sysconf("SC_PAGE_SIZE") * os.sysconf("SC_PHYS_PAGES") / 2 ** 30
+            except (ValueError, OSError):
+                gb = 32
+            jvm_slot.N = int(os.environ.get("VERIF_JVM_SLOTS") or max(3, int(gb // 9)))
+        d = os.path.join(tempfile.gettempdir(), "verif-jvm-slots")
+        os.makedirs(d, exist_ok=True)
+        while True:
+            for k in _r.sample(range(jvm_slot.N), jvm_slot.N):
+                f = open(os.path.join(d, "slot%d" % k), "w")
+                try:
+                    fcntl.flock(f, fcntl.LOCK_EX | fcntl.LOCK_NB)
+                    self.f = f
+                    return self
+                except OSError:
+                    f.close()
+            time.sleep(0.3 + _r.random())
+
+    def __exit__(self, *a):
+        self.f.close()
+        return False
+
+
+def tlc(ctx, module, cfg, **kw):
+    with jvm_slot():
+        return _tlc(ctx, module, cfg, **kw)
+
+
+def _tlc(ctx, module, cfg, *, workers=1, env=None, timeout=900, on=None, heap="6g",
         simulate=None, depth=None, seed=None, deadlock=False, name=None, allow_violation=False):
     """Run TLC on specs/<module>.tla with specs/<cfg>. `on(tag, obj)` receives every
     <<"TAG", "<json>">> line. Returns dict(generated, distinct, rc, tail)."""
@@ -377,7 +415,9 @@ def apalache(ctx, tla_text, modname, *, inv="Ok", timeout=900, name=None, extra_
     e.pop("JAVA_TOOL_OPTIONS", None)
     e["JVM_ARGS"] = "-Xmx4g -Xss64m"          # several Apalache processes run side by side
     try:
-        p = subprocess.run(cmd, cwd=d, env=e, capture_output=True, text=True, timeout=timeout)
+        with jvm_slot():
+            t = time.time()
+            p = subprocess.run(cmd, cwd=d, env=e, capture_output=True, text=True, timeout=timeout)
     except subprocess.TimeoutExpired:
         raise Infra("Apalache timeout (%ds) on %s" % (timeout, modname))
     sec = round(time.time() - t, 1)
